@@ -8,6 +8,8 @@ PROTOCOLS = "70:6d+6e;:7a;7479:" + "+".join(t[3:].hex() for t in TYPED)
 PENDING = "7:0:1:1,8:0:1:0,9:0:0:1"   # seq 7 generic unwrapper, seq 8 string errors, seq 9 no result wanted
 ENV = "protocols=%s pending=%s" % (PROTOCOLS, PENDING)
 KNOWN = [b"p.m", b"p.n", b"z"] * 4 + TYPED
+HOSTILE_CT = [-1, -1, -2, -3, -32, -33, -128, -129, -32768, -32769, -2 ** 31, -2 ** 31 - 1, -2 ** 63, 3, 4, 127, 128, 255, 256,
+              65535, 65536, 2 ** 31 - 1, 2 ** 31, 2 ** 32 - 1, 2 ** 32, 2 ** 63 - 1]
 UNKNOWN = [b"p.x", b"q.m", b"nodot", b"", b"p.", b".m", b"a.b.c"]
 
 
@@ -42,6 +44,10 @@ def gen_msg(rng, ch, depth=2, with_expect=False):
         r = (content(el[:15], ch), "call", "call(%s,%s,%s,%s)" % (T(seq), T(("s", me)), T(a), tt))
     elif kind == 1:
         seq, ct, me, a = rng.below(1000), rng.choice([0, 0, 3, 77, 1, 1] + ([] if with_expect else [2])), rng.choice(known), mp.gen_value(rng, depth)
+        if rng.chance(1, 5):
+            # compression types no sender of this library produces: negative, just outside the known range, wide (both ends
+            # must treat every one of them as "none"; the field comes straight off the wire)
+            ct = rng.choice(HOSTILE_CT)
         exp = None
         wire = a
         if ct == 1:
